@@ -1,5 +1,6 @@
 import TR.Lemmas.Stack
 import TR.Model.Listeners
+import TR.Lemmas.TimeLimiter
 /-!
 # C20 — layers are transparent, honour Tower readiness; listeners only observe
 
@@ -55,6 +56,25 @@ theorem recall_without_poll_rejected :
                  .inner (.call 0 7), .inner (.poll 0 .ready), .inner (.call 0 7)]).isSome := by
   constructor <;> rfl
 
+/-- **Only `Ready(Ok)` licenses a call** — for any state of a boundary, any instance that has not observed
+readiness since its last call, and any number of further `poll_ready` answers that are `Pending` (an inner
+service that needs longer than the retry back-off to recover) or errors: the call that follows breaks the
+contract. Waiting for something else in the meantime (a back-off timer) changes nothing. -/
+theorem not_ready_polls_never_license (m : Mon) (i tag : Nat) (rs : List PollRes) (hrs : ∀ r ∈ rs, r ≠ .ready)
+    (hi : m.ready i = false) : m.run (rs.map (fun r => Ev.poll i r) ++ [Ev.call i tag]) = none :=
+  Mon.not_ready_polls_then_call m i tag rs hrs hi
+
+/-- The layer automaton cannot perform it either: a retry that polled its instance and was told `Pending`
+(twice, while its back-off ran) and then calls it is rejected; after a `ready` answer it is accepted. -/
+theorem retry_after_pending_poll_rejected :
+    (LSt.run {} [.inner (.poll 0 .ready), .outer (.poll 0 .ready), .outer (.call 0 7), .inner (.clone 0 1),
+                 .inner (.call 0 7), .inner (.poll 0 .pending), .inner (.poll 0 .pending), .inner (.call 0 7)]).isNone ∧
+    (LSt.run {} [.inner (.poll 0 .ready), .outer (.poll 0 .ready), .outer (.call 0 7), .inner (.clone 0 1),
+                 .inner (.call 0 7), .inner (.poll 0 .pending), .inner (.poll 0 .ready), .inner (.call 0 7)]).isSome ∧
+    ¬ Respects [.poll 0 .ready, .clone 0 1, .call 0 7, .poll 0 .pending, .poll 0 .pending, .call 0 7] := by
+  refine ⟨rfl, rfl, ?_⟩
+  decide
+
 /-- Non-vacuity: the events two repaired layers (retry over circuit breaker) produced in the
 harness for a request that is retried once — accepted, and the caller respects the contract. -/
 example :
@@ -102,5 +122,75 @@ theorem no_catch_violates :
     callPath emitNoCatch [fun (_ : Nat) => false, fun _ => true, fun _ => false] [0] (.ok 5) = .panic ∧
     (emitNoCatch [fun (_ : Nat) => false, fun _ => true, fun _ => false] 0).ran = [0, 1] := by
   constructor <;> rfl
+
+/-- **A listener sees the layer as the next caller will.** On a completion path that gives back everything the
+finished call holds before it runs its listeners (`drop(permit)`, then `emit`: any number of releases followed by
+any number of events), what a call made from inside a listener — or arriving on another thread while a listener
+takes its time — is told equals what the same call is told right after the step, for every capacity and load:
+admission does not depend on what listeners do or how long they take. -/
+theorem listener_sees_final_state (s : Slots) (a b : Nat) :
+    ∀ v ∈ (finish s (List.replicate a .release ++ List.replicate b .emit)).2,
+      v = (finish s (List.replicate a .release ++ List.replicate b .emit)).1.admits := by
+  induction a generalizing s with
+  | zero =>
+    induction b with
+    | zero => intro v hv; simp [finish] at hv
+    | succ n ih =>
+      intro v hv
+      simp only [List.replicate_zero, List.nil_append, List.replicate_succ, finish, List.mem_cons] at hv ⊢
+      have hfin : ∀ k, (finish s (List.replicate k Act.emit)).1 = s := by
+        intro k; induction k with
+        | zero => rfl
+        | succ k ihk => simpa [List.replicate_succ, finish] using ihk
+      rcases hv with hv | hv
+      · rw [hv, hfin]
+      · have := ih v (by simpa using hv)
+        simpa using this
+  | succ n ih =>
+    intro v hv
+    simp only [List.replicate_succ, List.cons_append, finish] at hv ⊢
+    exact ih _ v hv
+
+/-- Releasing the slot only after the listeners have run (the seeded "event-ordering tidy-up" of the bulkhead) makes
+a call's outcome depend on the listeners: with one slot, the call made while the completion listeners of the
+only call in flight run is rejected, the same call made right after the step is admitted. -/
+theorem release_after_emit_violates :
+    (finish { inflight := 1, max := 1 } [.emit, .release]).2 = [false] ∧
+    (finish { inflight := 1, max := 1 } [.emit, .release]).1.admits = true ∧
+    (finish { inflight := 1, max := 1 } [.release, .emit]).2 = [true] := by
+  refine ⟨rfl, rfl, rfl⟩
+
+/-! ## the time limiter is transparent however late its future is first polled -/
+
+open TR.TimeLimiter in
+/-- **No timeout unless the wrapped call is slower than the timeout — whenever the future is first polled.** For
+every configuration (both cancellation modes, fixed or per-request timeouts) and every history — in particular
+any amount of time between `call()` and the first poll of the returned future, and polls arbitrarily late —
+a request whose wrapped call completes (ok or error) in less than its timeout is never answered `Timeout`: the
+protective condition is measured from the start of the wrapped call (the first poll), not from `call()`. -/
+theorem timelimiter_untriggered_never_times_out (cfg : Cfg) (ops : List Op) (c : Nat) (x : Caller) (t : Nat)
+    (hx : lookup (run cfg ops).callers c = some x)
+    (hout : x.sc.out = .ok ∨ ∃ kd, x.sc.out = .err kd) (hfast : x.sc.lat < x.tmo) :
+    (t, CEv.result .timeout) ∉ x.hist := by
+  intro hr
+  have hinv := inv_reachable cfg ops c x hx
+  have hnp : x.sc.out ≠ .panic := by rcases hout with h | ⟨kd, h⟩ <;> simp [h]
+  have hnn : x.sc.out ≠ .never := by rcases hout with h | ⟨kd, h⟩ <;> simp [h]
+  rcases hinv.toLate t hr hnp with h | h
+  · exact absurd h hnn
+  · simp only [Caller.deadline, Caller.doneAt] at h
+    omega
+
+open TR.TimeLimiter in
+/-- Non-vacuity (both modes): created at 0, left alone for an hour (the timeout), first polled then, latency 5 ms:
+the wrapped call starts at the first poll and its result is delivered, not a timeout. -/
+example :
+    (run { timeout := 3600000, cancel := true, dyn := false }
+      [Op.arrive 1 none ⟨5, .ok⟩, .adv 3600000, .poll 1, .adv 5, .poll 1]).log =
+      [.innerCall 1 0, .innerDone 1 0 .ok, .result 1 (.ok 0)] ∧
+    (run { timeout := 3600000, cancel := false, dyn := false }
+      [Op.arrive 1 none ⟨5, .ok⟩, .adv 3600000, .poll 1, .adv 5, .poll 1]).log =
+      [.innerCall 1 0, .innerDone 1 0 .ok, .result 1 (.ok 0)] := by
+  decide
 
 end TR.Props.C20
